@@ -55,6 +55,24 @@ def gen_cases(rng, tier):
             h = pre + ['d30', 't60', 'r30', 't2', 'r30', 't5', 'u30', 't60', 'r30', 't5'] + post
             cases.append({'id': 'c14-form-%d-%d' % (fi, layered), 'cfg': cfg, 'hist': h, 'sub': 'ksim', 'form': True,
                           'tags': {'form': f, 'layered': layered}})
+    # two layers held at once that map the same position differently: the key went down through the layer that was active when it
+    # was pressed; its repeat must be forwarded whichever layers are held on top afterwards (and whatever they map there)
+    li = 0
+    for upper in ['y', '_', 'XX', '(multi lctl y)', 'lsft']:
+        for lower in ['x', 'S-x', '(tap-hold 0 20 x z)']:
+            for order in ('lower-first', 'upper-first'):
+                cfg = ('(defsrc a s d)\n(deflayer base b (layer-while-held nav1) (layer-while-held nav2))\n'
+                       '(deflayer nav1 %s _ _)\n(deflayer nav2 %s _ _)' % (lower, upper))
+                if order == 'lower-first':
+                    # hold nav1, press a (through nav1), then hold nav2 on top
+                    h = ['d31', 't3', 'd30', 't40', 'd32', 't17', 'r30', 't2', 'r30', 't5', 'u30', 't5', 'u32', 'u31', 't60']
+                else:
+                    # hold nav2 then nav1 (nav1 on top), press a through nav1; both layers stay active (the statement is about
+                    # actions on the layers that are active when the repeat arrives)
+                    h = ['d32', 't3', 'd31', 't3', 'd30', 't54', 'r30', 't2', 'r30', 't5', 'u30', 't5', 'u31', 'u32', 't60']
+                cases.append({'id': 'c14-layers-%d' % li, 'cfg': cfg, 'hist': h, 'sub': 'ksim', 'form': True,
+                              'tags': {'form': 'two-held-layers', 'upper': upper, 'lower': lower, 'order': order}})
+                li += 1
     # chords (v1 and v2) as the key-producing action: a participant shared by two chords, one of them disabled on the layer in use
     # (held layer or layer-switch target), held until the chord has produced its key, then every participant repeated
     ci = 0
@@ -146,7 +164,7 @@ SPEC = {
     'oracle': oracle,
     'rule': 'random configs over every key-producing action form (depth <= 3, 1-3 layers, overrides, chords v1) with OS repeats injected at '
             '~45% of the steps for held and for arbitrary keys; plus each action form held alone (on the base layer and on a held layer) '
-            'until it has produced output, then repeated; chords v1/v2 with a participant shared by two chords (one disabled on the layer in use); repeats during sequences in all three input modes; non-trivial = some repeat was forwarded',
+            'until it has produced output, then repeated; two simultaneously held layers mapping the same position differently; chords v1/v2 with a participant shared by two chords (one disabled on the layer in use); repeats during sequences in all three input modes; non-trivial = some repeat was forwarded',
     'explanation': 'theorems: at most one repeat and only for a key in the handler\'s held set; an unmod-released modifier is never '
                    'repeated; the last-listed key of a chord is preferred.  The python oracle checks every emitted repeat against the OS-down '
                    'set reconstructed from the output, and completeness for the single-key forms',
